@@ -786,6 +786,26 @@ func (s *poolSubject) Exec(c *Call) (o Outcome) {
 			var target RBoard
 			v, err := s.env.Rec.Recompose(boardData(c.Val), &target)
 			o.Text = "V=" + Render(v) + " E=" + errText(err)
+		case "oj.ValidateReader":
+			o.Text = "E=" + errText(oj.ValidateReader(newChunkReader(buf, c)))
+		case "oj.TokenizeLoad":
+			h := &recHandler{failAt: -1}
+			err := oj.TokenizeLoad(newChunkReader(buf, c), h)
+			o.Text = "T=" + h.trace.String() + " E=" + errText(err)
+			o.Live = h.live
+		case "sen.Parse":
+			v, err := sen.Parse(buf)
+			o.Text = "R=" + Render(v) + " E=" + errText(err)
+			o.Live = []any{v}
+		case "alt.Alter":
+			o.Text = "V=" + Render(alt.Alter(c.Data.Build(), s.env.Opts[c.Path%len(s.env.Opts)]))
+		case "alt.Dup":
+			o.Text = "V=" + Render(alt.Dup(c.Data.Build(), s.env.Opts[c.Path%len(s.env.Opts)]))
+		case "jp.Remove":
+			x := s.env.Exprs[c.Path%len(s.env.Exprs)]
+			data := c.Data.Build()
+			res, err := x.Remove(data)
+			o.Text = "D=" + Render(res) + " E=" + errText(err)
 		case "rec.Nest":
 			// struct types behind containers of containers: registered with RNest, not by these calls
 			var target RNest
